@@ -798,7 +798,7 @@ Qed.
 
 End Within.
 
-(* ---------- what the pinned texts admit (witness schedules; they hold on every tree,
+(* ---------- what the pinned texts allow (witness schedules; they hold on every tree,
    being statements about [pinned_shapes], and are replayed on the real threads) ---------- *)
 
 Fixpoint rep {A} (n : nat) (x : A) : list A := match n with O => [] | S m => x :: rep m x end.
